@@ -68,7 +68,14 @@ def main(ck):
     cmd = [sys.executable, os.path.join(common.VERIF, "tools", "extract_pool.py"), "--repo", common.REPO]
     ck.checker_cmds.append("python3 /verif/tools/extract_pool.py --repo %s" % common.REPO)
     rc, out, err = common.sh(cmd)
-    ck.oblige("pool capacities regenerated from src/sse/fast_op_alloc.rs (extractor recognised the source shape)", rc == 0, out + err)
+    ck.oblige("pool capacities regenerated from src/sse/fast_op_alloc.rs (extractor recognised the source shape)", rc in (0, 3), out + err)
+    shape_fails = [l.split("RESET-SHAPE FAIL ", 1)[1] for l in (out + err).splitlines() if "RESET-SHAPE FAIL " in l]
+    ck.oblige(
+        "what return_instance does to a buffer has the modelled shape (impl Reset for Vec/BinaryHeap/BondContainer, "
+        "BondContainer::clear, Allocator::{get_instance, return_instance}, verif_is_clean probes)",
+        rc in (0, 2) and not shape_fails,
+        "; ".join(shape_fails),
+    )
     ck.notes.append((out + err).strip())
     ck.extra_trusted += [
         "tools/extract_pool.py (regex extraction of the nine new_with_max_in_flight literals; fails closed on any other shape)",
